@@ -158,7 +158,7 @@ def main():
                                 'all label spellings in both cases with all separators; local segments up to 3(5) chars',
                      relang='unbounded length')
     ck.outside = ['free strings longer than the bound (covered only through the unbounded regex-language result)',
-                  'surrounding whitespace (excluded by the statement)', 'zerv check --format pep440 process level']
+                  'surrounding whitespace (excluded by the statement)', 'the process exit status of zerv check (run_check_command itself is executed)']
     ck.assumptions = ['regex crate modelled by a leftmost-first backtracking matcher over the HIR produced by the locked regex-syntax; validated against native on test literals',
                       'expected normal form is computed from the captures of my own Appendix B pattern (ASCII case folding) on the same symbolic input',
                       'python models of str::split/replace/parse/to_lowercase, Vec, Option (listed in models_used)']
